@@ -300,7 +300,7 @@ PROPS["C09"] = {"rule": GENERATE_RULE, "trusted_base": GENERATE_TB, "assumptions
 
 MANIFEST_TEXT = {
     "C09": {
-        "text": "CREATE. Machine-checked (Lean 4, every output byte string, both escapers, no guard): for every line of split_at_newline(output), generate_expectation_line does not panic and writes a text that contains no line feed, starts with neither `$ ` nor `> `, is no `[digits]` line -- so add_testcase_body appends it to the expectations of the open test in either parser mode (C09_line_is_expectation) -- and that the expectation grammar parses to an UNQUANTIFIED expectation of kind equal, no-eol or escaped whose rule (EqualRule / EqualNoEolRule / EscapedRule::make + matches) matches exactly that line (C09_line_roundtrip; covers `[1]`, `$ x`, `> x`, `foo (glob)`, `foo ()`, ` (no-eol)` endings incl. the \\x20 rewrite and the \\x24/\\x3e first-character escape, control characters, backslashes, invalid UTF-8, missing final line feed). Composition: all three reachable branches of generate_testcase write command + one such line per output line + `[code]` iff code != 0 (C09_create_shape, C09_create_lines_written, C09_create_outcome); the matcher run with the parsed expectations against the same output reports no difference (C09_create_passes, via C03_own_lines); `[c]` reads back as c for 0..255 and validate then says ok (C09_exit_code_roundtrip, C09_create_verdict); the Markdown fence is longer than any backtick run at a line start (C09_markdown_fence). Key lemma: everything written in front of ` (escaped)` is a sequence of decoder tokens in which a blank is only ever the blank piece and a non-backslash first character is its own piece, so `\\x20` and `\\xHH` rewrites keep the decoded bytes (Lemmas/GeneratePieces.lean). THROUGH THE DOCUMENT PARSER (Markdown): for every command given by its lines, every output, exit code 0..255, both escapers and both inline configurations, the document create prints is read back by the Markdown parser model (C06) as exactly one test with the same command lines, the generated texts as expectations, the exit code and the configuration (C09_create_markdown_end_to_end: the fence of max_backtick_size+1 backticks is recognised, no generated line closes the block, ends in CR, continues the command or is a second exit code). NOT a Lean theorem for Cram: that the Cram document parser returns the indented text as one test with exactly these lines -- covered by the byte-for-byte correspondence of the whole document plus the end-to-end oracle (real generator -> real parser -> real validate) on every case. UPDATE: oracle only; the full statement is false (C09_update_fails_on_witness, open finding).",
+        "text": "CREATE. Machine-checked (Lean 4, every output byte string, both escapers, no guard): for every line of split_at_newline(output), generate_expectation_line does not panic and writes a text that contains no line feed, starts with neither `$ ` nor `> `, is no `[digits]` line -- so add_testcase_body appends it to the expectations of the open test in either parser mode (C09_line_is_expectation) -- and that the expectation grammar parses to an UNQUANTIFIED expectation of kind equal, no-eol or escaped whose rule (EqualRule / EqualNoEolRule / EscapedRule::make + matches) matches exactly that line (C09_line_roundtrip; covers `[1]`, `$ x`, `> x`, `foo (glob)`, `foo ()`, ` (no-eol)` endings incl. the \\x20 rewrite and the \\x24/\\x3e first-character escape, control characters, backslashes, invalid UTF-8, missing final line feed). Composition: all three reachable branches of generate_testcase write command + one such line per output line + `[code]` iff code != 0 (C09_create_shape, C09_create_lines_written, C09_create_outcome); the matcher run with the parsed expectations against the same output reports no difference (C09_create_passes, via C03_own_lines); `[c]` reads back as c for 0..255 and validate then says ok (C09_exit_code_roundtrip, C09_create_verdict); the Markdown fence is longer than any backtick run at a line start (C09_markdown_fence). Key lemma: everything written in front of ` (escaped)` is a sequence of decoder tokens in which a blank is only ever the blank piece and a non-backslash first character is its own piece, so `\\x20` and `\\xHH` rewrites keep the decoded bytes (Lemmas/GeneratePieces.lean). THROUGH THE DOCUMENT PARSER (Markdown): for every command given by its lines, every output, exit code 0..255, both escapers and both inline configurations, the document create prints is read back by the Markdown parser model (C06) as exactly one test with the same command lines, the generated texts as expectations, the exit code and the configuration (C09_create_markdown_end_to_end: the fence of max_backtick_size+1 backticks is recognised, no generated line closes the block, ends in CR, continues the command or is a second exit code). The same for `create --format cram` through the Cram parser model (C07): C09_create_cram_end_to_end (cram_indented puts every line behind two blanks = the rendering of one test of C07's grammar). Every generated character is printable -- ascii mode 0x20..0x7e, unicode mode no is_other character -- hence never CR or LF, so str::lines() returns the generated lines unchanged (C09_line_printable). What remains outside Lean on the create path is only what lies between the models and the real code: the byte-for-byte correspondence of the whole document, the parser correspondences of C06/C07, and the end-to-end oracle (real generator -> real parser -> real validate; since session 3 also through the real binary: scrut create, then scrut test) on every case. UPDATE: oracle only; the full statement is false (C09_update_fails_on_witness, open finding).",
         "design_ref": "DESIGN.md §6 C09",
         "note": "Open finding C09:update-retained-quantified-expectations (inherent to the greedy matcher; witness `a* (glob+)`, `zzz`, `*2 (glob)` on a1 a2 b2). Defects repaired by fix: e62618f (Cram trim_end), bc2a143 (syntax collisions, ` (escaped) (no-eol)` order, stderr stream), 9b34612 (found by this model: `$ foo (no-eol)` was written `\\x24 foo (no-eol) (escaped)` and failed on its own output; regression class C09:first-char-escape-drops-no-eol-guard). Unicode-mode theorems assume is_other on ASCII = control characters. An empty shell expression panics in generate_testcase_expression (index 0 of no lines): modelled as a value, not reachable from a non-empty command line. A command ending in a line feed reads back without it (outside the property's quantifier: outputs and exit codes).",
         "technique": "Lean 4 theorems composing the machine-checked component models (escaper, decoder, grammar, line parser, matcher, verdict) over an executable model of the generators + byte-for-byte differential correspondence of the generated document + end-to-end generate/parse/validate oracle",
